@@ -186,6 +186,11 @@ def join(a, b):
         return ("href", a[1] | b[1])
     if a[0] == "tuple" and b[0] == "tuple" and len(a[1]) == len(b[1]):
         return ("tuple", tuple(join(x, y) for x, y in zip(a[1], b[1])))
+    # an empty tuple standing in for "nothing to iterate" joined with a container: the container's elements
+    if a == ("tuple", ()) and b[0] in ("list", "set", "iter", "dict", "opview"):
+        return b
+    if b == ("tuple", ()) and a[0] in ("list", "set", "iter", "dict", "opview"):
+        return a
     # None joined with a container / href: keep the non-None side (a None value cannot be iterated)
     if a == NONE:
         return b
@@ -706,7 +711,7 @@ class Typer:
             env2 = env.copy()
             env2[e.args[0].args.args[0].arg] = elem(ta)
             return ("iter", self.type_of(e.args[0].body, env2))
-        if fn == "zip":
+        if fn in ("zip", "product", "itertools.product", "zip_longest", "itertools.zip_longest"):
             return ("iter", ("tuple", tuple(elem(self.type_of(a, env)) for a in e.args)))
         if fn == "enumerate" and e.args:
             return ("iter", ("tuple", (TOP, elem(self.type_of(e.args[0], env)))))
